@@ -1,0 +1,8 @@
+//go:build !verif
+
+package dagsync
+
+import "github.com/libp2p/go-libp2p/core/peer"
+
+// verifYield is a no-op unless built with the verif tag.
+func verifYield(string, peer.ID) {}
